@@ -241,6 +241,144 @@ def gen_query(rng, n):
     return ["tuple", [rng.randint(-n - 1, n + 1) for _ in range(rng.randint(0, 3))]]
 
 
+# ---------------------------------------------------------------------------------------------------
+# reused operation objects (seeded round 3, C16-i): ONE operation object is handed to add_op / add / extend
+# several times, each time wired to inputs of another shape; the handle of every use must carry the count the
+# operation has AFTER that use's inputs were wired (partial operations are re-typed by the wiring).
+#   {"kind": "reuse", "op": kind, "pre": pre, "mode": "one"|"each"|"fn", "uses": [[api, wiring], ...], "j": j, "q": q}
+#   kind / pre (state of the object before its first use):
+#     unpack  None | k0      ops.UnpackTuple() / ops.UnpackTuple([Bool]*k0)
+#     callind None | [a0,b0] ops.CallIndirect() / ops.CallIndirect(FunctionType([Bool]*a0, [Bool]*b0))
+#     make    None | k0      ops.MakeTuple() / ops.MakeTuple([Bool]*k0)
+#     noop    False | True   ops.Noop() / ops.Noop(Bool)
+#     custom  [nin, nout]    ops.Custom with that signature (not partial: wiring does not re-type it)
+#     tag     k              ops.Tag(0, Sum([[Bool]*k]))   (not partial)
+#   wiring: the types of the wires of one use, each "v" (Bool) | ["t", k] (k-tuple) | ["f", a, b] (function value)
+#   mode: all uses in one Dfg / a fresh Dfg per use (a module-level constant op) / one function body;
+#   consecutive "extend" uses in one graph go into ONE extend call.  j = the use whose handle is observed.
+def gwty(w):
+    if w == "v":
+        return "WVal"
+    return gapp("WTup", gZ(w[1])) if w[0] == "t" else gapp("WFn", gZ(w[1]), gZ(w[2]))
+
+
+def gobj(kind, pre):
+    if kind == "unpack":
+        return gapp("OUnpack", goz(pre))
+    if kind == "callind":
+        return gapp("OCallInd", goz(None if pre is None else pre[1]))
+    if kind == "make":
+        return gapp("OMake", goz(pre))
+    if kind == "noop":
+        return gapp("ONoop", gbool(bool(pre)))
+    if kind == "custom":
+        return gapp("OFixed", gZ(pre[1]))
+    if kind == "tag":
+        return gapp("OFixed", gZ(1))
+    raise AssertionError(kind)
+
+
+def reuse_count(case, j=None):
+    """Harness-side count of use j (only to aim queries and for statistics; Coq recomputes it from the case)."""
+    kind, w = case["op"], case["uses"][case["j"] if j is None else j][1]
+    if kind == "unpack":
+        return w[0][1]
+    if kind == "callind":
+        return w[0][2]
+    return case["pre"][1] if kind == "custom" else 1
+
+
+def build_reuse(case):
+    """Runs the uses of the one operation object through hugr-py's builders; returns all handles."""
+    from hugr import ops, tys
+    from hugr.build.dfg import Dfg
+    from hugr.build.function import Module
+    B = tys.Bool
+    kind, pre = case["op"], case["pre"]
+    if kind == "unpack":
+        op = ops.UnpackTuple() if pre is None else ops.UnpackTuple([B] * pre)
+    elif kind == "callind":
+        op = ops.CallIndirect() if pre is None else ops.CallIndirect(tys.FunctionType([B] * pre[0], [B] * pre[1]))
+    elif kind == "make":
+        op = ops.MakeTuple() if pre is None else ops.MakeTuple([B] * pre)
+    elif kind == "noop":
+        op = ops.Noop(B) if pre else ops.Noop()
+    elif kind == "custom":
+        op = ops.Custom("c16.op", tys.FunctionType([B] * pre[0], [B] * pre[1]), extension="c16")
+    else:
+        op = ops.Tag(0, tys.Sum([[B] * pre]))
+
+    def wt(w):
+        if w == "v":
+            return B
+        return tys.Tuple(*[B] * w[1]) if w[0] == "t" else tys.FunctionType([B] * w[1], [B] * w[2])
+
+    def run(d, uses, wires):
+        """uses in the graph d; wires[i] = the wires of use i"""
+        out, i = [], 0
+        while i < len(uses):
+            api = uses[i][0]
+            if api == "add_op":
+                out.append(d.add_op(op, *wires[i]))
+            elif api == "add":
+                out.append(d.add(op(*wires[i])))
+            else:
+                k = i
+                while k + 1 < len(uses) and uses[k + 1][0] == "extend":
+                    k += 1
+                out.extend(d.extend(*[op(*wires[m]) for m in range(i, k + 1)]))
+                i = k
+            i += 1
+        return out
+
+    uses = case["uses"]
+    if case["mode"] == "each":
+        hs = []
+        for u in uses:
+            d = Dfg(*[wt(w) for w in u[1]])
+            hs.extend(run(d, [u], [d.inputs()]))
+        return hs
+    alltys = [wt(w) for u in uses for w in u[1]]
+    d = Dfg(*alltys) if case["mode"] == "one" else Module().define_function("g", alltys)
+    ins, wires, pos = d.inputs(), [], 0
+    for u in uses:
+        wires.append(ins[pos:pos + len(u[1])])
+        pos += len(u[1])
+    return run(d, uses, wires)
+
+
+def gen_reuse(rng):
+    cnt = lambda: rng.choice([0, 1, 1, 2, 2, 3, 3, 4, 5, rng.randint(6, 12)])
+    anyw = lambda: rng.choice(["v", "v", ["t", rng.randint(0, 3)], ["f", rng.randint(0, 2), rng.randint(0, 3)]])
+    kind = rng.choice(["unpack"] * 7 + ["callind"] * 6 + ["make"] * 2 + ["noop"] * 2 + ["custom"] * 2 + ["tag"])
+    if kind == "unpack":
+        pre = rng.choice([None, None, cnt()])
+        wiring = lambda: [["t", cnt()]]
+    elif kind == "callind":
+        pre = rng.choice([None, None, [rng.randint(0, 2), cnt()]])
+
+        def wiring():
+            a = rng.randint(0, 2)
+            return [["f", a, cnt()]] + ["v"] * a
+    elif kind == "make":
+        pre = rng.choice([None, rng.randint(0, 3)])
+        wiring = lambda: [anyw() for _ in range(rng.randint(0, 4))]
+    elif kind == "noop":
+        pre = rng.random() < 0.5
+        wiring = lambda: [anyw()]
+    elif kind == "custom":
+        pre = [rng.randint(0, 3), cnt()]
+        wiring = lambda: ["v"] * pre[0]
+    else:
+        pre = rng.randint(0, 3)
+        wiring = lambda: ["v"] * pre
+    uses = [[rng.choice(["add_op", "add", "extend", "extend"]), wiring()] for _ in range(rng.choice([1, 2, 2, 2, 3, 3, 4]))]
+    j = len(uses) - 1 if rng.random() < 0.6 else rng.randrange(len(uses))
+    case = {"kind": "reuse", "op": kind, "pre": pre, "mode": rng.choice(["one", "one", "each", "fn"]), "uses": uses, "j": j}
+    case["q"] = gen_query(rng, reuse_count(case))
+    return case
+
+
 class C16(fw.Prop):
     id = "C16"
     props_file = "props/C16.v"
@@ -258,11 +396,17 @@ class C16(fw.Prop):
             "instantiation has more or fewer outputs than the body's row --, nested Dfg / Cfg / Conditional / "
             "TailLoop added or inserted with 0..12 outputs) through add_op / add / extend / call / load / "
             "insert_*, where the expected count is computed by the Coq spec (value_outputs) from the shape and "
-            "never read from the implementation; port equality/hash pairs. non-trivial = query with a negative, "
+            "never read from the implementation; ONE operation object (UnpackTuple / CallIndirect / MakeTuple / "
+            "Noop fresh or constructed with types, Custom, Tag) reused for 1..4 nodes through add_op / add / extend "
+            "(consecutive extend uses in one call) in one Dfg, a fresh Dfg per use or a function body, each use wired "
+            "to a tuple of another width / a function value with another number of results / other wire types, the "
+            "handle of a chosen use queried, the expected count being that of the operation AFTER that use's wiring "
+            "(spec use_outputs); port equality/hash pairs. non-trivial = query with a negative, "
             "overflowing or below -n bound, step>1, an unknown count, or a handle produced by a builder/history")
     trusted = ["builder handles: the harness builds the real operation and the Gallina shape from one description "
                "(harness/props/c16.py build_shape / gshape); the expected count comes from the shape (spec "
-               "value_outputs; for the fixed scenarios a literal), not from op.num_out"]
+               "value_outputs; for the fixed scenarios a literal; for reused operation objects use_outputs of the "
+               "wiring), not from op.num_out"]
 
     def corpus(self, ctx):
         # seeded round 2 (C16-d): `call` of a function polymorphic over a row of types, where the
@@ -277,6 +421,21 @@ class C16(fw.Prop):
             {"kind": "bop", "shape": rot("define", 0), "q": ["iter"]},
             {"kind": "bop", "shape": ["call", "declare", ["T", "R"], [["v", 0]], [["v", 0], ["r", 1], ["r", 1]], [None, 2]],
              "q": ["outputs"]},
+            # seeded round 3 (C16-i): one partial operation object used for a second node with another shape
+            # (a module-level `UNPACK = ops.UnpackTuple()`; extend(unpack(pair), unpack(triple)); a CallIndirect
+            # whose function value changes; an op constructed with types that the wiring overrides)
+            {"kind": "reuse", "op": "unpack", "pre": None, "mode": "each", "j": 1, "q": ["iter"],
+             "uses": [["add_op", [["t", 2]]], ["add_op", [["t", 3]]]]},
+            {"kind": "reuse", "op": "unpack", "pre": None, "mode": "one", "j": 1, "q": ["int", -1],
+             "uses": [["extend", [["t", 2]]], ["extend", [["t", 3]]]]},
+            {"kind": "reuse", "op": "unpack", "pre": None, "mode": "fn", "j": 1, "q": ["int", 1],
+             "uses": [["add", [["t", 3]]], ["add", [["t", 1]]]]},
+            {"kind": "reuse", "op": "unpack", "pre": 2, "mode": "one", "j": 0, "q": ["slice", None, None, None],
+             "uses": [["add_op", [["t", 3]]]]},
+            {"kind": "reuse", "op": "callind", "pre": None, "mode": "one", "j": 1, "q": ["outputs"],
+             "uses": [["add", [["f", 1, 1], "v"]], ["add", [["f", 1, 2], "v"]]]},
+            {"kind": "reuse", "op": "callind", "pre": [0, 2], "mode": "each", "j": 0, "q": ["iter"],
+             "uses": [["add_op", [["f", 0, 0]]]]},
         ]
 
     def generate(self, rng, tier, ctx):
@@ -335,6 +494,9 @@ class C16(fw.Prop):
         for _ in range(600 if tier == "quick" else 6000):
             sh = gen_shape(rng)
             cases.append({"kind": "bop", "shape": sh, "q": gen_query(rng, shape_count(sh))})
+        # one operation object reused with other wire shapes (drawn after everything else)
+        for _ in range(500 if tier == "quick" else 5000):
+            cases.append(gen_reuse(rng))
         return cases
 
     def observe(self, case, ctx):
@@ -379,6 +541,9 @@ class C16(fw.Prop):
         if k == "bop":
             node = build_shape(case["shape"])
             return {"idx": node.idx, "r": run_query(node, case["q"])}
+        if k == "reuse":
+            node = build_reuse(case)[case["j"]]
+            return {"idx": node.idx, "r": run_query(node, case["q"])}
         if k == "porteq":
             def mk(p, variant):
                 idx, off, inc = p
@@ -394,10 +559,14 @@ class C16(fw.Prop):
             return gapp("CPortEq", gp(case["a"]), gp(case["b"]), gbool(obs["eq"]), gbool(obs["hash_eq"]))
         if case["kind"] == "bop":
             return gapp("CBuilder", gZ(obs["idx"]), gshape(case["shape"]), gquery(case["q"]), gres(obs["r"]))
+        if case["kind"] == "reuse":
+            return gapp("CReuse", gZ(obs["idx"]), gobj(case["op"], case["pre"]),
+                        glist(glist(gwty(w) for w in u[1]) for u in case["uses"]), fw.gnat(case["j"]),
+                        gquery(case["q"]), gres(obs["r"]))
         return gapp("CIndex", gZ(obs["idx"]), goz(obs["n"]), gquery(case["q"]), gres(obs["r"]))
 
     def nontrivial(self, case, obs):
-        if case["kind"] in ("history", "builder", "bop"):
+        if case["kind"] in ("history", "builder", "bop", "reuse"):
             return True
         if case["kind"] == "porteq":
             return case["a"] != case["b"] or case["va"] != case["vb"]
@@ -415,6 +584,8 @@ class C16(fw.Prop):
 
     def signature(self, case, obs, ctx):
         kind = case["kind"] + ("-" + case["shape"][0] if case["kind"] == "bop" else "")
+        if case["kind"] == "reuse":
+            kind += "-" + case["op"]
         return "nodeindex:" + kind + ":" + (case.get("q") or ["eq"])[0]
 
     def shrink(self, case):
@@ -440,8 +611,41 @@ class C16(fw.Prop):
                         yield {**case, "shape": sh[:i] + [sh[i] - 1] + sh[i + 1:]}
             if case["q"] != ["iter"]:
                 yield {**case, "q": ["iter"]}
+        if case["kind"] == "reuse":
+            uses, j = case["uses"], case["j"]
+            for i in range(len(uses)):
+                if i != j:
+                    yield {**case, "uses": uses[:i] + uses[i + 1:], "j": j - (1 if i < j else 0)}
+            if case["mode"] != "one":
+                yield {**case, "mode": "one"}
+            if case["op"] in ("unpack", "callind", "make") and case["pre"] is not None:
+                yield {**case, "pre": None}
+            for i, (api, w) in enumerate(uses):
+                if api != "add_op":
+                    yield {**case, "uses": uses[:i] + [["add_op", w]] + uses[i + 1:]}
+                if case["op"] in ("unpack", "callind"):
+                    # narrower tuple / fewer results / fewer arguments
+                    f = w[0]
+                    if f[-1] > 0:
+                        yield {**case, "uses": uses[:i] + [[api, [f[:-1] + [f[-1] - 1]] + w[1:]]] + uses[i + 1:]}
+                    if f[0] == "f" and f[1] > 0:
+                        yield {**case, "uses": uses[:i] + [[api, [["f", f[1] - 1, f[2]]] + w[2:]]] + uses[i + 1:]}
+                elif case["op"] in ("make", "noop"):
+                    if case["op"] == "make" and w:
+                        yield {**case, "uses": uses[:i] + [[api, w[:-1]]] + uses[i + 1:]}
+                    for m, x in enumerate(w):
+                        if x != "v":
+                            yield {**case, "uses": uses[:i] + [[api, w[:m] + ["v"] + w[m + 1:]]] + uses[i + 1:]}
+            if case["q"] != ["iter"]:
+                yield {**case, "q": ["iter"]}
 
     def neighbours(self, case, rng):
+        if case["kind"] == "reuse":
+            n = reuse_count(case)
+            for q in (["iter"], ["outputs"], ["int", -1], ["int", n - 1], ["int", n], ["slice", None, None, None]):
+                yield {**case, "q": q}
+            for _ in range(30):
+                yield {**case, "q": gen_query(rng, n)}
         if case["kind"] == "bop":
             n = shape_count(case["shape"])
             for q in (["iter"], ["outputs"], ["int", -1], ["int", n - 1], ["int", n], ["slice", None, None, None]):
@@ -452,7 +656,8 @@ class C16(fw.Prop):
     def distribution(self, cases, observations):
         d = {}
         for c, o in zip(cases, observations):
-            key = c["kind"] + ("-" + c["shape"][0] if c["kind"] == "bop" else "") + ":" + (c.get("q") or ["eq"])[0]
+            sub = "-" + c["shape"][0] if c["kind"] == "bop" else "-" + c["op"] if c["kind"] == "reuse" else ""
+            key = c["kind"] + sub + ":" + (c.get("q") or ["eq"])[0]
             d.setdefault(key, {"n": 0, "errors": 0})
             d[key]["n"] += 1
             if "r" in o and o["r"][0] == "err":
